@@ -40,8 +40,18 @@ type Engine struct{}
 
 func (Engine) Name() string { return "e1front" }
 
-var runs = map[string][2]int{ // quick, thorough
-	"C01": {600, 60000},
+var runs = map[string][2]int{ // quick, thorough (thorough sized for roughly 10-15 min on 16 cores)
+	"C01": {600, 90000},
+	"C02": {360, 120000},
+	"C03": {700, 120000},
+	"C04": {1500, 1200000},
+	"C05": {1200, 300000},
+	"C06": {3000, 900000},
+	"C07": {30, 6000},
+	"C08": {1500, 1000000},
+	"C09": {400, 200000},
+	"C10": {160, 150000},
+},
 	"C02": {360, 30000},
 	"C03": {700, 80000},
 	"C04": {1500, 300000},
